@@ -92,7 +92,7 @@ Schema == [c \in Class |->
                         Slot("gas_species", "one", <<"StatMech", "Nasa">>, 1) >>
      [] OTHER -> << >> ]
 
-EmpAttrs == {"name", "phase", "elements", "smiles", "notes"}
+EmpAttrs == {"name", "phase", "elements", "smiles", "notes", "add_gas_P_adj"}
 RxnAttrs == {"reactants_stoich", "products_stoich", "transition_state_stoich", "notes"}
 \* attributes the property speaks about: identifying ones and the parameters behind the getters
 Attrs == [c \in Class |->
@@ -142,6 +142,8 @@ NotWritten(c) == IF Required THEN {} ELSE
      [] c = "PiecewiseCovEffect" -> {"name"}
      [] c \in RxnCls -> {"notes"} \cup (IF c = "SurfaceReaction" THEN {"id", "direction", "use_motz_wise"} ELSE {})
      [] c = "PhaseDiagram" -> {"norm_factors"}
+     [] c \in {"Nasa", "Nasa9", "Reference"} -> {"add_gas_P_adj"}     \* the option was not kept at all
+     [] c = "Shomate" -> {"add_gas_P_adj", "n_sites"}
      [] OTHER -> {}
 NotRestored(c) == IF Required THEN {} ELSE
    CASE c = "StatMech" -> {"elements", "smiles"}
